@@ -38,7 +38,7 @@ claim("C09", MC,
       "DESIGN.md 3/C09")
 claim("C10", MC,
       "Attribution: journal harnesses check account and call index of the recorded entry; symbolic histories of enter/exit/journal over 2 accounts x 2 keys are compared with a list model (chronological, repeats collapsed, no mixing).",
-      "Histories <= 4 operations quick / 5 thorough over the tracer API; the stamp is also checked inside and after every frame routine (CALL, CALLCODE, DELEGATECALL, STATICCALL, CREATE/CREATE2) started below two enclosing call-tree nodes.",
+      "Histories <= 4 operations quick / 5 thorough (126,700 paths) over the tracer API; the stamp is also checked inside and after every frame routine (CALL, CALLCODE, DELEGATECALL, STATICCALL, CREATE/CREATE2) started below two enclosing call-tree nodes.",
       "DESIGN.md 3/C10")
 claim("C11", MC,
       "Key-tree lookups: each of the six registration instructions and both journal instructions checked from an arbitrary state: name/index path and (slot, offset, type) reach the same record, refused operations add nothing.",
@@ -66,15 +66,15 @@ claim("C20", MC,
       "DESIGN.md 3/C20")
 claim("C15", MC,
       "TLOAD/TSTORE/MCOPY executed through the real interpreter loop (arbitrary stack, memory, gas, static flag) on the Cancun table and on three earlier tables: transient slot per executing address, write refused in static context, exact warm-access fee; MCOPY against a memmove oracle on the zero-extended pre-state with exact copy+expansion gas for case-split small operands, and must-fail / coverage obligations for operands up to 2^256; the three bytes are invalid instructions before Cancun.",
-      "MCOPY content and gas: dst, src, len <= 5 (thorough 12) with 0..3 words of memory, all byte contents symbolic; larger operands symbolic for the failure/coverage obligations only. 'Empty at transaction start' and 'restored on revert' are the host StateDB's journal (a transient write is one journal event, covered by C04).",
+      "MCOPY content and gas: dst, src, len <= 5 with 0..3 words of memory, all byte contents symbolic; larger operands symbolic for the failure/coverage obligations only. 'Empty at transaction start' and 'restored on revert' are the host StateDB's journal (a transient write is one journal event, covered by C04).",
       "DESIGN.md 3/C15")
 claim("C16", MC,
       "The three list-valued tracer queries evaluated twice while the engine chooses Go's map iteration order freely (every order is a path): answers must be identical; two EVM instances share no tracer structure; every write of the code under test to memory created by package initialisation (shared constants, tables, precompile instances) is reported, across the journal, frame, precompile and step harnesses.",
-      "Maps of 3 entries quick / 4 thorough. A shared write is established symbolically (no native replay). Host StateDB and library determinism are outside.",
+      "Maps of 3 entries (index keys and slots may repeat). A shared write is established symbolically (no native replay). Host StateDB and library determinism are outside.",
       "DESIGN.md 3/C16")
 claim("C19", MC,
       "Well-nested symbolic event streams (several Aspects on one join point, calls issued from inside an Aspect, child and grandchild frames, deep chains with several children) driven into the real callTracer and flatCallTracer: no panic, every frame and Aspect execution emitted once with its own gas/output/error, flat sub-trace counts equal emitted children, trace addresses unique and prefix-closed.",
-      "Quick: <=2 Aspects on the pre join point, 1 on post, <=1 call inside an Aspect, 1 child (+grandchild), chains to depth 4 with 3 children; thorough: 3/2/2/2, depth 8. JSON marshalling and ABI revert decoding are opaque.",
+      "Quick: <=2 Aspects on the pre join point, 1 on post, <=1 call inside an Aspect, 1 child (+grandchild), up to 3 post-call Aspects in the flat variant, chains to depth 4 with 3 children; thorough: chains to depth 8. JSON marshalling and ABI revert decoding are opaque.",
       "DESIGN.md 3/C19")
 claim("C17", "other",
       "Reduction decided per unit, not an exploration of schedules: (1) isolation: in every journal, frame, precompile and step harness each write of the code under test to memory created by package initialisation (tables, shared constants, precompile instances) is a reported violation, and two EVM instances are shown to share no tracer/interpreter structure - instances without shared mutable memory cannot race and every interleaving equals the sequential run; (2) the abort flag is a sync/atomic.Bool and every use of it in the package is the receiver of one of its methods (checked on the SSA of the current tree); (3) a jump executed while the flag's Load answers arbitrarily-but-monotonically (Cancel from another goroutine at any moment) or after Cancel: no panic, bookkeeping closed, the frame stops at that jump without charging a further instruction.",
